@@ -207,7 +207,8 @@ def builder_chain(W, body, g, term, exit_site, val):
                 if pre == "sometimes":
                     res["unknown"].append("mutator %s only on some paths to this outcome" % callee)
                     continue
-                args = pv.arg_terms(bb)
+                # helper-computed header values are bound in the valuation; other sub-terms stay as extracted
+                args = [g.resolve_vals(a_, val) for a_ in pv.arg_terms(bb)]
                 _apply_builder_call(res, callee, args)
             t = t[3]
             continue
